@@ -6,8 +6,11 @@
       (`Err.other`);
     * `'.' in expr` -> `expr[1:].split('.')` must give exactly two parts, otherwise the tuple unpacking
       raises ValueError (`Err.other`);
-    * `int(section_index)`: blanks around, one optional sign, ASCII digits with single underscores
-      between digits (non-ASCII digits, which Python accepts too, are outside the modelled alphabet);
+    * `int(section_index)`: blanks around (the `str.isspace` characters except U+001C..U+001F: CPython's
+      `int` keeps ASCII characters as they are and its own blank test does not know these four, so
+      `int('\x1c1')` is a ValueError although `'\x1c1'.strip()` is `'1'`), one optional sign, ASCII
+      digits with single underscores between digits (non-ASCII digits, which Python accepts too, and the
+      limit of 4300 digits of CPython >= 3.11 are outside the modelled domain: see `C17_src_parse`);
       failure is the library's `MetadataExprParsingError` (`Err.mdExpr`);
     * the name is whatever follows, unchecked;
     * `query`: the sections whose `index` metadata equals the given one (all when none is given), in
@@ -52,9 +55,15 @@ def natLit (s : List Char) : Option Nat :=
   | c :: _ => if isDigit c then digitsVal 0 s else none
   | [] => none
 
+/-- the blanks `int()` skips around the number: `str.isspace` without U+001C..U+001F -/
+def isIntSpace (c : Char) : Bool := isSpace c && !(28 ≤ c.toNat && c.toNat ≤ 31)
+
+def stripInt (s : List Char) : List Char :=
+  ((s.dropWhile isIntSpace).reverse.dropWhile isIntSpace).reverse
+
 /-- Python `int(str)` on the modelled alphabet -/
 def parseInt (s : List Char) : Option Int :=
-  match strip s with
+  match stripInt s with
   | '-' :: r => (natLit r).map fun n => -(Int.ofNat n)
   | '+' :: r => (natLit r).map Int.ofNat
   | r => (natLit r).map Int.ofNat
